@@ -596,6 +596,15 @@ fn spawn_async_ao_list_in_task'''),
         ('dot-policy-looks-at-first-piece', 'brush-core/src/patterns.rs', "                let subpattern_starts_with_dot = component\n                    .iter()\n                    .map(|piece| piece.as_str())\n                    .collect::<String>()\n                    .starts_with('.');", "                let subpattern_starts_with_dot = subpattern\n                    .pieces\n                    .first()\n                    .is_some_and(|piece| piece.as_str().starts_with('.'));"),
         ('dot-policy-inverted-option', 'brush-core/src/patterns.rs', "let allow_dot_files = !options.require_dot_in_pattern_to_match_dot_files", "let allow_dot_files = options.require_dot_in_pattern_to_match_dot_files"),
     ],
+    'U4r': [
+        ('empty-name-early-exit-skips-the-hook', 'brush-core/src/commands.rs', "        // First see if it's the name of a builtin.\n        let builtin = self.shell.builtins().get(&self.command_name).cloned();", "        if self.command_name.is_empty() {\n            return Err(ErrorKind::CommandNotFound(self.command_name).into());\n        }\n\n        // First see if it's the name of a builtin.\n        let builtin = self.shell.builtins().get(&self.command_name).cloned();"),
+        ('not-found-path-skips-the-hook', 'brush-core/src/commands.rs', "                if let Some(post_execute) = self.post_execute {\n                    let _ = post_execute(&mut self.shell);\n                }\n\n                Err(ErrorKind::CommandNotFound(self.command_name).into())", "                Err(ErrorKind::CommandNotFound(self.command_name).into())"),
+        ('hook-runs-before-dispatch-too', 'brush-core/src/commands.rs', "        // We still haven't found a command to invoke. We'll need to look for an external command.\n", "        if let Some(post_execute) = self.post_execute {\n            let _ = post_execute(&mut self.shell);\n        }\n"),
+        ('unwrap-of-unchecked-builtin', 'brush-core/src/commands.rs', "        if self.shell.options().posix_mode\n            && builtin\n                .as_ref()\n                .is_some_and(|r| !r.disabled && r.special_builtin)\n        {", "        if self.shell.options().posix_mode {"),
+    ],
+    'U4q': [
+        ('owned-shell-builtin-keeps-its-control-flow', 'brush-core/src/commands.rs', "            result.map(|result| ExecutionResult::from(result.exit_code))\n", "            result\n"),
+    ],
     'U16': [
         ('tilde-not-flagged-at-start', 'brush-core/src/escape.rs', "    matches!(c, '#' | '~')", "    matches!(c, '#')"),
         ('bang-not-flagged', 'brush-core/src/escape.rs', "            | '!'\n", ""),
